@@ -23,8 +23,11 @@
 (*   drop(flush g) = DropGuard (guardRc--)                                  *)
 (*   drop(force g) = FUpgrade . FTake (lock, take) . FCall (valueRc--)      *)
 (*                   . FRelease (unlock, guardRc--)                         *)
-(*   drop(slot g)  = SSend (closed value into the oneshot) . SRelease      *)
-(*                   (flush guard field, wait mode only)                   *)
+(*   drop(slot g)  = SBegin (the guard's drop has begun: its value is being *)
+(*                   closed - user code, arbitrarily slow - nothing is     *)
+(*                   sent and the flush guard is still held) . SSend       *)
+(*                   (closed value into the oneshot) . SRelease (flush     *)
+(*                   guard field, wait mode only)                          *)
 (* A drop is a drop whether it is an ordinary `drop`, the end of a scope    *)
 (* or the unwinding of a panic of the thread that holds the object: the    *)
 (* property makes no exception, so the model has one set of drop actions   *)
@@ -68,7 +71,7 @@ VARIABLES
     valueRc, guardRc, closure, mutex,
     gst,      \* flush guard: none | live | done
     fst,      \* force guard: none | live | upgraded | taken | called | norel | done
-    sst,      \* slot guard: unopened | open | sent | done
+    sst,      \* slot guard: unopened | open | closing | sent | done
     smode,    \* wait | discard
     sval,     \* value held by the slot guard (number of mutations through it)
     chan,     \* oneshot: -1 empty, else the closed value
@@ -103,7 +106,7 @@ GStarted(g) == gst[g] = "done"
 GEnded(g) == gst[g] = "done" /\ ~Busy(<<"g", g>>)
 FStarted(f) == fst[f] \notin {"none", "live"}
 FEnded(f) == fst[f] = "done"
-SStarted(s) == sst[s] \in {"sent", "done"}
+SStarted(s) == sst[s] \in {"closing", "sent", "done"}
 SEnded(s) == sst[s] = "done" /\ ~Busy(<<"s", s>>)
 IsWait(s) == sst[s] # "unopened" /\ smode[s] = "wait"
 
@@ -254,8 +257,13 @@ FRelease(f) ==
     /\ DecGuard(<<"f", f>>)
     /\ UNCHANGED <<ovars, gst, svars, ver, emB>>
 
-SSend(s) ==
+SBegin(s) ==
     /\ sst[s] = "open" /\ CanStart
+    /\ sst' = [sst EXCEPT ![s] = "closing"]
+    /\ UNCHANGED <<ovars, valueRc, guardRc, closure, mutex, gst, fst, smode, sval, chan, rxst, data, ver, emA, emB>>
+
+SSend(s) ==
+    /\ sst[s] = "closing"
     /\ chan' = IF rxst[s] = "open" THEN [chan EXCEPT ![s] = sval[s]] ELSE chan
     /\ sst' = [sst EXCEPT ![s] = IF smode[s] = "wait" THEN "sent" ELSE "done"]
     /\ UNCHANGED <<ovars, valueRc, guardRc, closure, mutex, gst, fst, smode, sval, rxst, data, ver, emA, emB>>
@@ -291,7 +299,7 @@ Step ==
     \/ \E g \in G : NewGuard(g) \/ DropGuard(g)
     \/ \E f \in F : NewForce(f) \/ FUpgrade(f) \/ FTake(f) \/ FCall(f) \/ FRelease(f)
     \/ \E h \in H : CloneHandle(h) \/ DropHandle(h)
-    \/ \E s \in S : (\E m \in Modes : OpenSlot(s, m)) \/ WaitForData(s) \/ MutSlot(s) \/ SSend(s) \/ SRelease(s)
+    \/ \E s \in S : (\E m \in Modes : OpenSlot(s, m)) \/ WaitForData(s) \/ MutSlot(s) \/ SBegin(s) \/ SSend(s) \/ SRelease(s)
     \/ DropOwner1 \/ DropOwner2
     \/ EmitRead \/ EmitAppend
 
@@ -310,7 +318,7 @@ TypeOK ==
     /\ closure \in {"present", "taken", "gone"} /\ mutex \in {0} \cup F
     /\ gst \in [G -> {"none", "live", "done"}]
     /\ fst \in [F -> {"none", "live", "upgraded", "taken", "called", "norel", "done"}]
-    /\ sst \in [S -> {"unopened", "open", "sent", "done"}]
+    /\ sst \in [S -> {"unopened", "open", "closing", "sent", "done"}]
     /\ smode \in [S -> {"wait", "discard"}]
     /\ sval \in [S -> 0..MaxSV] /\ chan \in [S -> -1..MaxSV] /\ data \in [S -> -1..MaxSV]
     /\ rxst \in [S -> {"open", "taken"}]
@@ -325,7 +333,7 @@ RcOK ==
                  + (IF closure = "present" \/ (closure = "taken" /\ \E f \in F : fst[f] = "taken") THEN 1 ELSE 0)
     /\ guardRc = (IF opc = "done" THEN 0 ELSE 1)
                  + Cardinality({g \in G : gst[g] = "live"})
-                 + Cardinality({s \in S : IsWait(s) /\ sst[s] \in {"open", "sent"}})
+                 + Cardinality({s \in S : IsWait(s) /\ sst[s] \in {"open", "closing", "sent"}})
                  + Cardinality({f \in F : fst[f] \in {"upgraded", "taken", "called", "norel"}})
     /\ (mutex # 0 <=> \E f \in F : fst[f] \in {"taken", "called"})
     /\ (em = "no" <=> valueRc > 0)
